@@ -3,7 +3,7 @@ from . import inbox_common as IC
 from .inbox_common import TRUSTED_BASE, ASSUMPTIONS
 
 COQ_FILES = IC.COQ_FILES
-THEOREMS = ["C02_token_invariant", "C02_receive_mutex", "C02_worker_created_only_by_cas"]
+THEOREMS = ["C02_token_invariant", "C02_receive_mutex", "C02_handoff", "C0123_oracle_sound"]
 RULE = ("configurations (senders x numbered messages, capacity 1-2, Start racing or not, optional pill) of the real "
         "actor/inbox.go run under the deterministic scheduler: all schedules by DFS with visited-state pruning for the small "
         "ones, seeded random walks for the larger; each kept execution is replayed step by step in the Coq model and every "
